@@ -25,6 +25,7 @@ template<typename K>
 struct KeyMap<K, std::enable_if_t<std::is_integral_v<K>>> {
     using UK = std::make_unsigned_t<K>;
     static constexpr bool floating = false;
+    bool allow_zero = false;
     /// positions 0..U map to lowest()..max-1 (max is the reserved sentinel)
     uint64_t U = uint64_t(UK(UK(std::numeric_limits<K>::max()) - UK(std::numeric_limits<K>::lowest()))) - 1;
     unsigned scale = 0;
@@ -43,7 +44,9 @@ struct KeyMap<K, std::enable_if_t<std::is_floating_point_v<K>>> {
     uint64_t U = sizeof(K) == 4 ? (uint64_t(1) << 17) : (uint64_t(1) << 41);
     unsigned scale = 0;
     void draw(Rng &r) { scale = (unsigned) r.below(sizeof(K) == 4 ? 11 : 21); }
+    bool allow_zero = false; ///< VERIF_NO_AVOID=1: the pre-finding mapping (u - U/2) * 2^-scale, which contains 0.0
     K at(uint64_t u) const {
+        if (allow_zero) return (K) std::ldexp((long double) u - (long double) (U / 2), -(int) scale);
         long double m = 2 * ((long double) u - (long double) (U / 2)) + 1;
         return (K) std::ldexp(m, -(int) scale - 1);
     }
